@@ -154,9 +154,17 @@ type Case struct {
 	Base  string   `json:"base"` // none | int8 … uint64 | dec | nil
 	Fd    int      `json:"fd"`
 	Steps []string `json:"steps"` // restriction texts, hex
+	// pass-through levels (passthrough.go): Pass[k] typedefs without a restriction before step k (the last
+	// entry: after the last step); what they carry, where the levels are placed, binary instead of string
+	Pass    []int  `json:"pass,omitempty"`
+	Flavor  int    `json:"flavor,omitempty"`
+	Place   int    `json:"place,omitempty"`
+	LenBase string `json:"len_base,omitempty"`
 }
 
-func (c Case) key() string { return c.Mode + " " + c.Base + " " + strconv.Itoa(c.Fd) + " " + strings.Join(c.Steps, " ") }
+func (c Case) key() string {
+	return c.Mode + " " + c.Base + " " + strconv.Itoa(c.Fd) + " " + strings.Join(c.Steps, " ") + c.passKey()
+}
 
 func (c Case) request() string {
 	if c.Mode == "len" {
@@ -931,7 +939,7 @@ func runGo(cases []Case, procs int) [][]string {
 			for j, i := range idx {
 				b[j] = cases[i]
 			}
-			res := runYANG(b)
+			res := runBatchYANG(b)
 			for j, i := range idx {
 				outs[i] = res[j]
 			}
@@ -1247,6 +1255,34 @@ func genSyntax(thorough bool) []Case {
 			addCase(&cs, "int", "int64", 0, p)
 			addCase(&cs, "dec", "dec", 18, p)
 		}
+	}
+	// points: bounds with several points, a point next to a sign, a lone point, points in integer and length
+	// bounds -- small values, so that a reader that merely drops or skips points finds a number of admissible
+	// precision and in order (lower bounds below, upper bounds above what the points could be read as); at
+	// fraction-digits large enough for every misreading (4, 9, 18) and too small for some (1, 2)
+	pointBounds := []string{"1.2.3", "0.1.5", "0.0.1", "1.5.0", "2.0.5", "-2.0.5", "+1.0.0", "1..2.3", "1.2.", ".1.2", ".1.", "..1", "1..", "0.0.0", "0.0.0.0", "1.2.3.4",
+		"1.2.3.4.5.6.7.8.9", ".", "-.", "+.", ".-1", "-.5", "+.5", ".5", "5.", "-5.", "1.-5", "1.+5", "-.-5", "1.5-", "0.-0", ". 5", "5 .5", "1. 5", "1.\t5", ".5.", "..", "...", "....",
+		"0x1.8", "1.5e1", "1e1", "1_0.5", "1.0_0", "07.5", "00.50", "٣.٥", "1,5", "1·5", "1。5", "1．5"}
+	var pointParts []string
+	for _, b := range pointBounds {
+		pointParts = append(pointParts, b, "0.."+b, "-9.."+b, "min.."+b, b+"..9", b+"..max", b+".."+b, "0|"+b+"..9", "-9.."+b+"|9", b+" .. 9", "-9 .. "+b)
+	}
+	pointParts = append(pointParts, "1.2.3..5", "0..1.5.0", "-2.0.5", "-2.0.5..0", "1.2.3..4.5.6", "0.1..0.2.5", "1.0..1.0.5", "0.5..1.0.0|2..3", "1|2.0.0..3", "1 .. 2.5.0")
+	pointParts = uniq(pointParts)
+	for _, p := range pointParts {
+		addCase(&cs, "int", "none", 0, p)
+		addCase(&cs, "int", "int8", 0, p)
+		addCase(&cs, "int", "uint64", 0, p)
+		addCase(&cs, "len", "nil", 0, p)
+		for _, fd := range []int{1, 2, 4, 9, 18} {
+			addCase(&cs, "dec", "none", fd, p)
+			addCase(&cs, "dec", "dec", fd, p)
+		}
+		// under restricted parents (the point bound is the second step)
+		addCase(&cs, "dec", "dec", 4, "-9..9", p)
+		addCase(&cs, "dec", "dec", 18, "-9.000000000000000000..9", p)
+		addCase(&cs, "int", "int16", 0, "-9..9", p)
+		addCase(&cs, "len", "nil", 0, "0..9", p)
 	}
 	// bar structure
 	bars := []string{"|", "||", "1|", "|1", "1||2", "1|2|", " | ", "1 | 2", "1|2|3|4|5|6|7|8|9|10|11|12|13|14", "14|13|12|11|10|9|8|7|6|5|4|3|2|1|0",
@@ -1951,6 +1987,7 @@ func main() {
 		{"random_chains", genRandom(f.Rand(1), nr), q(1, 2), false},
 		{"random_ordered_chains", genRandomOrdered(f.Rand(2), nr), q(1, 2), false},
 		{"malformed", genMalformed(f.Rand(3), nr), q(1, 2), false},
+		{"pass_through", genPassThrough(th, f.Rand(6)), 0, false},
 	}
 	// literals of extreme length (longlits.go); in shares of at most 50000 chains, the requests being long
 	for k, ll := 0, genLongLiterals(th, f.Rand(5)); len(ll) > 0; k++ {
@@ -1967,6 +2004,7 @@ func main() {
 	sibPerName := map[string]int64{}
 	sibSeconds, sibFatal, sibOther := 0.0, int64(0), int64(0)
 	distinct := lib.NewDistinct()
+	knownS1 := 0
 	var nontriv, evals int64
 	okSteps, errSteps := int64(0), int64(0)
 	writtenSteps, writtenJudged := int64(0), int64(0)
@@ -2051,6 +2089,11 @@ func main() {
 			if strings.Contains(g, "panic") {
 				found = append(found, lib.Disagreement{Kind: "crash", Input: describe(c), Go: g, Model: ans[i], SpecVerdict: "violates",
 					What: "the range code panicked", Replay: replayIdx(i)})
+				continue
+			}
+			if strings.Contains(g, "passthrough-") {
+				found = append(found, lib.Disagreement{Kind: "spec", Input: describe(c), Go: g, Model: ans[i], SpecVerdict: "violates",
+					What: "the set must be a subset of the parent type's set at every step of a derivation chain: a typedef that adds no restriction of the kind reports an error or presents a set other than the inherited one (" + sec.name + ")", Replay: replayIdx(i)})
 				continue
 			}
 			if specIdx[i][1]-specIdx[i][0] != len(goOuts[i]) {
@@ -2235,6 +2278,15 @@ func main() {
 			return found[a].SpecVerdict == "violates" && found[b].SpecVerdict != "violates"
 		})
 		for _, dd := range found {
+			// known finding D10-S1: the signature is computed by spec.step (Drv/Range.lean, pointBeforeSign): the
+			// outcome is the model's and is condemned only because bounds of that one shape are accepted
+			if dd.Kind == "spec" && strings.Contains(dd.What, "known finding D10-S1") {
+				knownS1++
+				if knownS1 > 3 {
+					continue
+				}
+				dd.Known = "D10-S1"
+			}
 			if len(res.Disagreements) >= 50 {
 				res.Count("disagreements_not_examined", 1)
 				continue
@@ -2315,6 +2367,7 @@ func main() {
 	res.Distribution["cases_methods"] = len(mcs)
 	res.Distribution["seconds_methods"] = float64(int(time.Since(tB).Seconds()*10)) / 10
 	res.Distribution["contains_pairs_checked_against_spec"] = sdcPairs
+	res.Distribution["outcomes_of_known_finding_D10-S1"] = knownS1
 	res.Distribution["steps_accepted"] = okSteps
 	res.Distribution["steps_rejected"] = errSteps
 	res.Distribution["long_literal_steps"] = writtenSteps
@@ -2385,6 +2438,11 @@ func describe(c Case) map[string]any {
 		long = long || st[i] != t
 	}
 	d := map[string]any{"mode": c.Mode, "base": c.Base, "fraction_digits": c.Fd, "restrictions": st}
+	if c.Pass != nil {
+		d["typedefs_without_restriction_before_each_step_and_after_the_last"] = c.Pass
+		d["placement"] = passPlaces[c.Place]
+		d["yang"] = passText(c)
+	}
 	if long {
 		d["notation"] = "c{n} stands for n times the character c (the replay record has the text itself)"
 	}
@@ -2519,7 +2577,7 @@ func replay(f *lib.Flags, d *lib.Driver) {
 	if len(cr.Batch) > cr.Index && cr.Batch[cr.Index].key() == c.key() {
 		// together with the chains that were resolved in the same module (the order in which the
 		// typedefs of a module are resolved is fixed by their source position)
-		if gb := runYANG(cr.Batch)[cr.Index]; strings.Join(gb, " ; ") != strings.Join(g, " ; ") {
+		if gb := runBatchYANG(cr.Batch)[cr.Index]; strings.Join(gb, " ; ") != strings.Join(g, " ; ") {
 			fmt.Printf("note: alone the chain gives %s; shown below is the outcome inside the recorded module of %d chains\n", strings.Join(g, " ; "), len(cr.Batch))
 			g = gb
 		}
@@ -2538,6 +2596,10 @@ func replay(f *lib.Flags, d *lib.Driver) {
 			why = append(why, "by written value: "+w)
 			verdict = "violates"
 		}
+	}
+	if strings.Contains(strings.Join(g, " ; "), "passthrough-") {
+		verdict = "violates"
+		why = append(why, "a typedef that adds no restriction reports an error or presents a set other than the inherited one")
 	}
 	fmt.Printf("input: %v\ngo:    %s\nmodel: %s\nspec:  %s %v\n", describe(c), strings.Join(g, " ; "), a, verdict, why)
 	if strings.Join(g, " ; ") != a || verdict != "holds" {
